@@ -298,3 +298,193 @@ func c05RekeyByIdentity(c *Ctx) {
 		}
 	}
 }
+
+// c06SuppressorsDisjoin (SUPPRESSORS-DISJOIN): an annotation is dropped when ANY suppression applies - ignore paths,
+// per-rule ignore paths, unstable packages, comment ignores. The deciding function is a chain of independent tests that
+// each may answer `true`. Any other answer (a constant false, or a computed value) returned before a later suppressor
+// was consulted makes that suppressor unreachable for some configurations: adding an `ignore_only` entry for a rule
+// would then switch *off* its comment ignores, i.e. adding a suppression adds annotations. Decided on SSA: let the
+// suppressors be the `return true` sites, each identified by the config fields its guards read; a return of anything
+// else must have consulted (in a guard or a dominating test) at least one field of every suppressor.
+func c06SuppressorsDisjoin(c *Ctx) {
+	const rule = "SUPPRESSORS-DISJOIN"
+	c.Rule(rule, "no answer other than `ignore` is given before every suppressor was consulted", 2)
+	p := c.P
+	pk := p.Pkg("private/bufpkg/bufcheck")
+	if pk == nil {
+		c.Fail(rule, "anchor", token.NoPos, "bufcheck not found")
+		return
+	}
+	found := 0
+	for _, sf := range p.SSAFuncsOf([]*packages.Package{pk}) {
+		sig := sf.Signature
+		if sf.Parent() != nil || sig.Results().Len() != 2 || len(sf.Params) < 1 {
+			continue
+		}
+		if b, ok := sig.Results().At(0).Type().Underlying().(*types.Basic); !ok || b.Kind() != types.Bool {
+			continue
+		}
+		var cfg *ssa.Parameter
+		for _, prm := range sf.Params {
+			if pt, ok := prm.Type().(*types.Pointer); ok && namedName(pt.Elem()) == "config" {
+				cfg = prm
+			}
+		}
+		if cfg == nil {
+			continue
+		}
+		fieldsOf := func(v ssa.Value) map[string]bool {
+			out := map[string]bool{}
+			sliceBack(v, func(x ssa.Value) bool {
+				if fa, ok := x.(*ssa.FieldAddr); ok {
+					if st, ok := fa.X.Type().Underlying().(*types.Pointer).Elem().Underlying().(*types.Struct); ok {
+						// the leaf field; embedded sub-configs (config.optionsConfig.X) are only the way to it
+						if f := st.Field(fa.Field); !f.Embedded() && dependsOnValue(fa.X, cfg) {
+							out[f.Name()] = true
+						}
+					}
+				}
+				return true
+			})
+			return out
+		}
+		type ret struct {
+			r      *ssa.Return
+			isTrue bool
+		}
+		var rets []ret
+		for _, r := range returnsOf(sf) {
+			if len(r.Results) != 2 {
+				continue
+			}
+			if !isNilConst(r.Results[1]) {
+				continue // error exits
+			}
+			k, isConst := r.Results[0].(*ssa.Const)
+			rets = append(rets, ret{r, isConst && k.Value != nil && k.Value.ExactString() == "true"})
+		}
+		// suppressors
+		type supp struct {
+			fields map[string]bool
+			pos    token.Pos
+		}
+		var supps []supp
+		for _, rt := range rets {
+			if !rt.isTrue {
+				continue
+			}
+			fs := map[string]bool{}
+			for _, ge := range guardingEdges(rt.r.Block()) {
+				// only tests that hold on the way in (the false edges of earlier suppressors do not identify this one)
+				if _, pos := condPolarity(ge.If.Cond); ge.Branch != pos {
+					continue
+				}
+				for f := range fieldsOf(ge.If.Cond) {
+					fs[f] = true
+				}
+			}
+			if len(fs) > 0 {
+				supps = append(supps, supp{fs, rt.r.Pos()})
+			}
+		}
+		if len(supps) < 2 {
+			continue
+		}
+		found++
+		k := 0
+		for _, rt := range rets {
+			if rt.isTrue {
+				continue
+			}
+			k++
+			consulted := map[string]bool{}
+			for _, b := range sf.Blocks {
+				i := ifOf(b)
+				if i == nil || !b.Dominates(rt.r.Block()) {
+					continue
+				}
+				for f := range fieldsOf(i.Cond) {
+					consulted[f] = true
+				}
+			}
+			var missed []string
+			for _, s := range supps {
+				hit := false
+				for f := range s.fields {
+					if consulted[f] {
+						hit = true
+					}
+				}
+				if !hit {
+					missed = append(missed, strings.Join(sortedKeys(s.fields), "+"))
+				}
+			}
+			c.Ob(rule, fmt.Sprintf("%s/non-ignore-return#%d", sf.Name(), k), rt.r.Pos(), len(missed) == 0, true, "%d suppressors (return true under config tests); this return was reached without consulting: %v", len(supps), missed)
+		}
+	}
+	if found == 0 {
+		c.Fail(rule, "anchor", token.NoPos, "no (…*config…) (bool, error) function with two or more config-guarded `return true` found in bufcheck")
+	}
+}
+
+// c06OptionsFullPath (OPTIONS-FULL-PATH): a `buf:lint:ignore` comment is looked for on the source locations
+// *associated* with an annotation's path (protosourcepath). For an option the comment sits on the option statement
+// itself, whose location is the full path ([8, 11] for `option java_package = …;`), not the bare options message
+// ([8], which never carries comments). Every transition of the path automaton into the `options` state must therefore
+// associate a clone of the whole path it was given - the function's SourcePath parameter, unsliced. Sibling agreement
+// over all states (file, message, field, enum, enum value, service, method …).
+func c06OptionsFullPath(c *Ctx) {
+	const rule = "OPTIONS-FULL-PATH"
+	c.Rule(rule, "every transition into the options state associates the whole source path", 8)
+	p := c.P
+	pk := p.Pkg("private/pkg/protosourcepath")
+	if pk == nil {
+		c.Fail(rule, "anchor", token.NoPos, "protosourcepath not found")
+		return
+	}
+	info := pk.TypesInfo
+	optionsFn, _ := pk.Types.Scope().Lookup("options").(*types.Func)
+	if optionsFn == nil {
+		c.Fail(rule, "anchor", token.NoPos, "state function `options` not found")
+		return
+	}
+	for _, fr := range p.FuncsOf(pk) {
+		if fr.Decl.Body == nil || fr.Obj == optionsFn {
+			continue
+		}
+		// SourcePath parameters of this state function
+		params := map[types.Object]bool{}
+		if fr.Decl.Type.Params != nil {
+			for _, f := range fr.Decl.Type.Params.List {
+				for _, nm := range f.Names {
+					if o := info.Defs[nm]; o != nil && namedName(o.Type()) == "SourcePath" {
+						params[o] = true
+					}
+				}
+			}
+		}
+		k := 0
+		ast.Inspect(fr.Decl.Body, func(n ast.Node) bool {
+			r, ok := n.(*ast.ReturnStmt)
+			if !ok || len(r.Results) != 3 {
+				return true
+			}
+			if id := lastIdent(r.Results[0]); id == nil || info.Uses[id] != optionsFn {
+				return true
+			}
+			k++
+			okFull := false
+			if lit, ok := ast.Unparen(r.Results[1]).(*ast.CompositeLit); ok && len(lit.Elts) == 1 {
+				e := ast.Unparen(lit.Elts[0])
+				if call, ok := e.(*ast.CallExpr); ok && len(call.Args) == 1 && calleeIs(Callee(info, call), "slices", "Clone") {
+					e = ast.Unparen(call.Args[0])
+				}
+				if o := identObj(info, e); o != nil && params[o] {
+					okFull = true
+				}
+			}
+			c.Ob(rule, fmt.Sprintf("%s#%d", fr.Decl.Name.Name, k), r.Pos(), okFull, true, "the transition into `options` associates its whole SourcePath parameter: %v (%s)", okFull, exprString(r.Results[1]))
+			return true
+		})
+	}
+}
